@@ -7,7 +7,7 @@ echo "== unchanged tree"
 ./bin/gfcheck -prop all -tier quick -repo /repo -out /tmp/gfreg-out -known ./known_findings.json -controls ./checker/testdata/controls 2>&1 | grep -E "^C[0-9]+ quick:" | grep -vE "violated=0 undecided=0 fatal=0" | sed 's/^/  NOT SILENT: /'
 rm -rf /tmp/gfreg-out
 echo "== seeds"
-ls -d seeded/*/ | xargs -P 8 -I{} bash -c 'd={}; id=$(basename $d); p=${id%%-*}; r=$(./mutrun.sh $d/patch.diff $p 2>&1 | head -1 | cut -c1-80); echo "$id $r"' | sort > /tmp/gfreg-seeds.txt
+ls -d $HERE/seeded/*/ | xargs -P 8 -I{} bash -c 'd={}; d=${d%/}; id=$(basename $d); p=${id%%-*}; r=$(./mutrun.sh $d/patch.diff $p 2>&1 | head -1 | cut -c1-80); echo "$id $r"' | sort > /tmp/gfreg-seeds.txt
 grep -c CAUGHT /tmp/gfreg-seeds.txt | sed 's/^/  caught: /'; grep -v CAUGHT /tmp/gfreg-seeds.txt | sed 's/^/  NOT CAUGHT: /'
 for DIR in "$@"; do
   echo "== refactorings in $DIR"
